@@ -373,6 +373,21 @@ class Builder(object):
                 if w["items"][0] == "ctx" and r.random() < 0.4:
                     n = r.choice([0, 1, 2, 3, 4])
                     tr["publish"].append([w["items"][1], ["lit", ["j%s_%d" % (name, j) for j in range(n)]]])
+        # ... and so may the variables a retry count / delay expression reads
+        if g["publish"]:
+            for name in list(self.tasks.keys()):
+                t = self.tasks[name]
+                rt = t.get("retry")
+                if not rt or r.random() < 0.4:
+                    continue
+                inbound = [(sn, tr) for sn, st in self.tasks.items() for tr in st["next"] if name in tr["do"]]
+                if not inbound:
+                    continue
+                sn, tr = inbound[r.randrange(len(inbound))]
+                for fld, vals in (("count", [0, 1, 2, 3]), ("delay", [0, 2, 7])):
+                    node = rt.get(fld)
+                    if lang._is_node(node) and node[0] == "ctx" and r.random() < 0.7:
+                        tr["publish"].append([node[1], ["lit", r.choice(vals)]])
         # conditions reading the context
         if g["cond_ctx"]:
             for name in list(self.tasks.keys()):
